@@ -445,6 +445,10 @@ func cmdHarness(args []string) int {
 			opts.FloatMode = "fp"
 			continue
 		}
+		if a == "-roundint" {
+			opts.FloatMode = "real-roundint"
+			continue
+		}
 		if strings.HasPrefix(a, "-real:") {
 			opts.RealBodies = append(opts.RealBodies, strings.TrimPrefix(a, "-real:"))
 			continue
